@@ -19,6 +19,7 @@ import ClvmProofs.Lemmas.Serde2026Len
 import ClvmProofs.Lemmas.Serde2026Wire
 import ClvmProofs.Lemmas.InternInv
 import ClvmProofs.Lemmas.Serde2026LenSer
+import ClvmProofs.Lemmas.Serde2026SerTotal
 
 namespace Clvm.Props.C20
 open Clvm Clvm.Serde2026
@@ -209,5 +210,36 @@ theorem len_ser_bounded (d : Intern.Dag) (root level : Nat) (strict : Bool) (max
     (hmal : ∀ b : Bytes, Intern.Subtree (.atom b) (Intern.denote d root) → b.length ≤ maxAtomLen) :
     serializedLength2026 (blob ++ rest) maxAtomLen strict = .ok blob.length :=
   Serde2026.serializedLength_serialized wf hroot h maxAtomLen hmal strict rest
+
+/-! ### the serializer is total -/
+
+/-- **`serialize_2026` is total on well-formed sources** (every tree, every level): it returns a blob, or
+one of the allocator limits `intern_tree` ran into (4 GiB heap, `MAX_NUM_ATOMS`, `MAX_NUM_PAIRS`).  It
+never panics (slice / `HashMap` indexing, `write_varint` range, `unreachable!`) and the work loop of
+`emit_instructions` ends within the model's fuel `3·|pairs| + 2`.  So the hypothesis
+`serialize2026 … = .ok blob` of `de_ser` / `len_ser` holds for every tree `intern_tree` accepts. -/
+theorem ser_total (d : Intern.Dag) (root level : Nat) (wf : d.WF) (hroot : root < d.size) :
+    (∃ blob, serialize2026 d root level = .ok blob) ∨
+    (∃ e, (e = .OutOfMemory ∨ e = .TooManyAtoms ∨ e = .TooManyPairs) ∧ serialize2026 d root level = .error e) :=
+  Serde2026.serialize2026_total wf hroot level
+
+/-- **C20 round trip, in one statement**: for every well-formed source, either `intern_tree` hits an
+allocator limit, or `serialize_2026` returns a blob such that — in both modes, for every admissible
+`max_atom_len`, followed by any bytes — the decoder returns the source tree having consumed exactly the
+blob, and the length probe returns the blob's length. -/
+theorem ser_de_len (d : Intern.Dag) (root level : Nat) (wf : d.WF) (hroot : root < d.size) :
+    (∃ e, (e = .OutOfMemory ∨ e = .TooManyAtoms ∨ e = .TooManyPairs) ∧ serialize2026 d root level = .error e) ∨
+    (∃ blob, serialize2026 d root level = .ok blob ∧
+      ∀ (strict : Bool) (maxAtomLen : Nat) (rest : Bytes),
+        (∀ b : Bytes, Intern.Subtree (.atom b) (Intern.denote d root) → b.length ≤ maxAtomLen) →
+        deserialize2026Consumed (blob ++ rest) maxAtomLen strict = .ok (Intern.denote d root, blob.length) ∧
+        serializedLength2026 (blob ++ rest) maxAtomLen strict = .ok blob.length) := by
+  rcases ser_total d root level wf hroot with ⟨blob, h⟩ | he
+  · right
+    refine ⟨blob, h, ?_⟩
+    intro strict maxAtomLen rest hmal
+    exact ⟨de_ser_consumed d root level strict maxAtomLen blob rest wf hroot h hmal,
+      len_ser_bounded d root level strict maxAtomLen blob rest wf hroot h hmal⟩
+  · left; exact he
 
 end Clvm.Props.C20
